@@ -311,7 +311,7 @@ class Interp:
                     fr.locals[p] = Cell(args_c[p], Sym(p))
                 elif p in run.heap:
                     fr.locals[p] = Cell(run.heap[p], Sym(p))
-                elif defaults and (dflt := _default_expr(fi, p)) is not None:
+                elif (defaults or _is_new_param(fi, p)) and (dflt := _default_expr(fi, p)) is not None:
                     # the parameter is left out by the caller being modelled: it takes its declared default
                     fr.locals[p] = Cell(run.eval_default(dflt, fi, cf), Sym(p))
                 else:
@@ -343,6 +343,15 @@ class Interp:
             if len(paths) > self.opts.max_paths:
                 raise AnalysisError(f"path bound {self.opts.max_paths} exceeded in {fi.qual}")
         return paths
+
+
+def _is_new_param(fi, p) -> bool:
+    """A parameter that the pinned tree's version of this function did not have (sa/known_params.txt): no caller of the modelled world
+    passes it, so an entry point explored by a rule sees its declared default (same stance as "newly extracted code is transparent")."""
+    from .repo import KNOWN_PARAMS
+
+    known = KNOWN_PARAMS.get(fi.qual)
+    return known is not None and p not in known
 
 
 def _default_expr(fi, p):
